@@ -193,17 +193,24 @@ def run(report, p):
     r6.instance(cm, conts[0].ast if conts else cm.node, "skip condition")
     okc = len(conts) == 1
     if okc:
-        deps = sorted((norm(t.ast), l) for t, l in gc.control_deps(conts[0]) if t.kind == "test")
+        from .common import canon_dep
+
+        deps = sorted(canon_dep(t.ast, l) for t, l in gc.control_deps(conts[0]) if t.kind == "test")
         h = norm(loops[0].target) if loops else "history"
-        want = sorted([(f"{h} not in {cm.params[0]}.new_hash_lists", "T"), (f"{h} not in referenced_hash_lists", "T")])
+        want = sorted([(f"{h} in {cm.params[0]}.new_hash_lists", "F"), (f"{h} in referenced_hash_lists", "F")])
         okc = deps == want
         r6.check(okc, cm, conts[0].ast, f"a history is skipped at commit under {deps}; it must be skipped exactly when it has no new records and no referenced child ({want})", construct=f"skip under {deps}")
     else:
         r6.check(False, cm, cm.node, "commit has no (or more than one) skip of untouched histories", construct="skip count")
     for wc in wcalls:
-        deps = [(norm(t.ast), l) for t, l in gc.control_deps(gc.node_for(wc), transitive=False) if t.kind == "test"]
-        deps = [(d, l) for d, l in deps if not (l == "F" and d.replace(" ", "").startswith(norm(loops[0].target) + "notin"))]
-        r6.check(not deps, cm, wc, f"writing a touched history is additionally conditional on {deps}", construct=f"write under {deps}")
+        # every iteration that is not skipped writes: no path through the loop body avoids both the skip and the write
+        wn = gc.node_for(wc)
+        lh = next((x for x in gc.nodes if x.kind == "loop" and x.ast is loops[0]), None) if loops else None
+        path = None
+        if lh is not None and conts:
+            starts = [(m, l) for m, l in lh.succ if l in ("iter", "T", "body")] or [(m, l) for m, l in lh.succ if l not in ("exhausted", "F")]
+            path = gc.find_path(lh, {lh.id}, avoid={wn.id} | {c.id for c in conts}, first_edges=starts)
+        r6.check(lh is not None and path is None, cm, wc, "an iteration of the commit loop can end without writing the touched history and without the skip", witness=gc.fmt_path(path) if path else None, construct="write not on every non-skipped iteration")
 
     # ------------------------------------------------------------------ R8.7
     r7 = report.rule("R8.7", "child root one level up: when the record just written is the root hash of its list and the history has a parent, every format's content/structure pair is copied to the parent's entry at the parent-relative path", 1)
@@ -232,7 +239,9 @@ def run(report, p):
         if len(cands) == 1:
             call, h = cands[0]
             cd = ga.control_deps(ga.node_for(call))
-            prefix = [(norm(t.ast), l) for t, l in cd if t.kind == "test"]
+            from .common import atomic_deps as _ad
+
+            prefix = [x for t, l in cd if t.kind == "test" for x in _ad(t.ast, l)]
             if any(t.kind == "loop" for t, l in cd):
                 per_format_call = call
             b = {k: norm(v) for k, v in p.bind_args(h, call).items() if v is not None}
@@ -244,7 +253,9 @@ def run(report, p):
     if per_format_call is not None:
         r7.check(False, ad, per_format_call, "the copy of the child's root record to the parent happens inside a loop over the formats: without directory hashes (create -n) the loop body never runs and the parent gets no directory entry for the nested root", construct="copy-up once per format")
     elif oku:
-        deps = sorted(set(prefix + [(norm(t.ast), l) for t, l in gs.control_deps(gs.node_for(ups[0])) if t.kind == "test"]))
+        from .common import atomic_deps
+
+        deps = sorted(set(prefix + [x for t, l in gs.control_deps(gs.node_for(ups[0])) if t.kind == "test" for x in atomic_deps(t.ast, l)]))
         oku = len(deps) == 2 and any("root_media_hash is media_hash" in d and l == "T" for d, l in deps) and any(d.endswith("parent_history") and l == "T" for d, l in deps)
         r7.check(oku, site, ups[0], f"the child's root hash is copied to the parent under {deps}; expected: this record is the list's root hash and the history has a parent", construct=f"copy-up guard {deps}")
         ko = pr.origins(ups[0].value.args[0], site)
